@@ -1,5 +1,409 @@
 import Hive.Model.KVLockset
 
+/-!
+# Soundness of the lockset analysis `an` w.r.t. the path semantics `Exec`
+
+If `fnOk g p` then on every path through `p` — either branch of every `if`, any number of iterations of every loop,
+early `return`/`break`/`continue` — and through the body of every closure in `p`, the trace of events runs without
+violating the discipline (`okA` holds before every event in the lock state reached so far), and the path ends, by
+falling off the end or by `return`, in a state in which every lock still held has its unlock deferred.
+-/
+
 namespace Hive.KV.Lockset
+
+/-! ## Unfolding equations of `an` -/
+
+theorem an_seq (g : Guards) (p q : Prog) (lc : Option Held) (h : Held) :
+    an g (.seq p q) lc h =
+      match an g p lc h with
+      | .err => .err
+      | .jump => if q = .skip then .jump else .err
+      | .fall h' => an g q lc h' := by
+  rw [an]; rfl
+
+theorem an_ite (g : Guards) (t e : Prog) (lc : Option Held) (h : Held) :
+    an g (.ite t e) lc h =
+      match an g t lc h, an g e lc h with
+      | .err, _ => .err
+      | _, .err => .err
+      | .jump, .jump => .jump
+      | .fall h1, .jump => if h1 = h then .fall h else .err
+      | .jump, .fall h2 => if h2 = h then .fall h else .err
+      | .fall h1, .fall h2 => if h1 = h ∧ h2 = h then .fall h else .err := by
+  rw [an]; rfl
+
+theorem an_loop (g : Guards) (b : Prog) (lc : Option Held) (h : Held) :
+    an g (.loop b) lc h =
+      match an g b (some h) h with
+      | .err => .err
+      | .jump => .fall h
+      | .fall h' => if h' = h then .fall h else .err := by
+  rw [an]; rfl
+
+theorem an_closure (g : Guards) (b : Prog) (lc : Option Held) (h : Held) :
+    an g (.closure b) lc h = if bodyVerdict (an g b none []) then .fall h else .err := by
+  rw [an]
+
+/-! ## Consequences of "not refused" for the composite statements -/
+
+theorem seq_left_ne_err {g : Guards} {p q : Prog} {lc : Option Held} {h : Held}
+    (hne : an g (.seq p q) lc h ≠ .err) : an g p lc h ≠ .err := by
+  intro hc
+  apply hne
+  rw [an_seq, hc]
+
+theorem seq_of_fall {g : Guards} {p q : Prog} {lc : Option Held} {h h1 : Held}
+    (hp : an g p lc h = .fall h1) : an g (.seq p q) lc h = an g q lc h1 := by
+  rw [an_seq, hp]
+
+theorem ite_ne_err {g : Guards} {t e : Prog} {lc : Option Held} {h : Held}
+    (hne : an g (.ite t e) lc h ≠ .err) : an g t lc h ≠ .err ∧ an g e lc h ≠ .err := by
+  rw [an_ite] at hne
+  constructor
+  · intro hc
+    apply hne
+    rw [hc]
+  · intro hc
+    apply hne
+    rw [hc]
+    cases an g t lc h <;> rfl
+
+theorem ite_fall_left {g : Guards} {t e : Prog} {lc : Option Held} {h h1 : Held}
+    (hne : an g (.ite t e) lc h ≠ .err) (ht : an g t lc h = .fall h1) :
+    h1 = h ∧ an g (.ite t e) lc h = .fall h := by
+  rw [an_ite, ht] at hne
+  rw [an_ite, ht]
+  cases he : an g e lc h with
+  | err => rw [he] at hne; exact absurd rfl hne
+  | jump =>
+    rw [he] at hne
+    by_cases hh : h1 = h
+    · exact ⟨hh, by simp [hh]⟩
+    · simp [hh] at hne
+  | fall h2 =>
+    rw [he] at hne
+    by_cases hh : h1 = h ∧ h2 = h
+    · exact ⟨hh.1, by simp [hh.1, hh.2]⟩
+    · simp [hh] at hne
+
+theorem ite_fall_right {g : Guards} {t e : Prog} {lc : Option Held} {h h2 : Held}
+    (hne : an g (.ite t e) lc h ≠ .err) (he : an g e lc h = .fall h2) :
+    h2 = h ∧ an g (.ite t e) lc h = .fall h := by
+  rw [an_ite, he] at hne
+  rw [an_ite, he]
+  cases ht : an g t lc h with
+  | err => rw [ht] at hne; exact absurd rfl hne
+  | jump =>
+    rw [ht] at hne
+    by_cases hh : h2 = h
+    · exact ⟨hh, by simp [hh]⟩
+    · simp [hh] at hne
+  | fall h1 =>
+    rw [ht] at hne
+    by_cases hh : h1 = h ∧ h2 = h
+    · exact ⟨hh.2, by simp [hh.1, hh.2]⟩
+    · simp [hh] at hne
+
+theorem loop_ne_err {g : Guards} {b : Prog} {lc : Option Held} {h : Held}
+    (hne : an g (.loop b) lc h ≠ .err) :
+    an g (.loop b) lc h = .fall h ∧ an g b (some h) h ≠ .err ∧
+      ∀ h', an g b (some h) h = .fall h' → h' = h := by
+  rw [an_loop] at hne
+  rw [an_loop]
+  cases hb : an g b (some h) h with
+  | err => rw [hb] at hne; exact absurd rfl hne
+  | jump => exact ⟨rfl, by simp, by simp⟩
+  | fall h1 =>
+    rw [hb] at hne
+    by_cases hh : h1 = h
+    · refine ⟨by simp [hh], by simp, ?_⟩
+      intro h' heq
+      cases heq
+      exact hh
+    · simp [hh] at hne
+
+/-! ## Traces -/
+
+theorem runTr_append (g : Guards) (h : Held) (t1 t2 : List Atom) :
+    runTr g h (t1 ++ t2) = (runTr g h t1).bind fun h' => runTr g h' t2 := by
+  induction t1 generalizing h with
+  | nil => simp [runTr]
+  | cons a t ih =>
+    simp only [List.cons_append, runTr]
+    by_cases hok : okA g h a = true
+    · simp [hok, ih]
+    · simp [hok]
+
+/-- A successful run ends in `stateAfter`, and every event was allowed in the state reached before it. -/
+theorem runTr_some {g : Guards} {h h' : Held} {tr : List Atom} (hrun : runTr g h tr = some h') :
+    h' = stateAfter h tr ∧
+      ∀ pre a post, tr = pre ++ a :: post → okA g (stateAfter h pre) a = true := by
+  induction tr generalizing h with
+  | nil =>
+    simp only [runTr, Option.some.injEq] at hrun
+    refine ⟨by simp [stateAfter, hrun], ?_⟩
+    intro pre a post heq
+    simp at heq
+  | cons b t ih =>
+    simp only [runTr] at hrun
+    by_cases hok : okA g h b = true
+    · simp only [hok, if_true] at hrun
+      obtain ⟨hfin, hall⟩ := ih hrun
+      refine ⟨by simp [stateAfter, hfin], ?_⟩
+      intro pre a post heq
+      cases pre with
+      | nil =>
+        simp only [List.nil_append, List.cons.injEq] at heq
+        rw [← heq.1]
+        simpa [stateAfter] using hok
+      | cons c pre' =>
+        simp only [List.cons_append, List.cons.injEq] at heq
+        rw [← heq.1]
+        simpa [stateAfter] using hall pre' a post heq.2
+    · simp [hok] at hrun
+
+/-! ## The main lemma -/
+
+/-- What a path of `p` that ends as `o` guarantees, given the analysis result `r` of `p` from `h` (loop context `lc`):
+the trace runs; a path that falls through ends in the very state the analysis computed; a returning path ends with
+every held lock deferred; a `break`/`continue` path ends in the state of the loop entry. -/
+def Post (g : Guards) (lc : Option Held) (h : Held) (tr : List Atom) (r : Res) : Out → Prop
+  | .norm => ∃ h', r = .fall h' ∧ runTr g h tr = some h'
+  | .ret => ∃ h', runTr g h tr = some h' ∧ allDeferred h' = true
+  | .brk => ∃ h', runTr g h tr = some h' ∧ lc = some h'
+  | .cont => ∃ h', runTr g h tr = some h' ∧ lc = some h'
+
+theorem Post_prepend {g : Guards} {lc : Option Held} {h h1 : Held} {t1 t2 : List Atom} {r : Res} {o : Out}
+    (hrun : runTr g h t1 = some h1) (hp : Post g lc h1 t2 r o) : Post g lc h (t1 ++ t2) r o := by
+  cases o <;> simpa [Post, runTr_append, hrun] using hp
+
+theorem Post_res_irrel {g : Guards} {lc : Option Held} {h : Held} {tr : List Atom} {r r' : Res} {o : Out}
+    (ho : o ≠ .norm) (hp : Post g lc h tr r o) : Post g lc h tr r' o := by
+  cases o with
+  | norm => exact absurd rfl ho
+  | ret => exact hp
+  | brk => exact hp
+  | cont => exact hp
+
+theorem an_sound (g : Guards) {p : Prog} {tr : List Atom} {o : Out} (hex : Exec p tr o) :
+    ∀ (lc : Option Held) (h : Held), an g p lc h ≠ .err → Post g lc h tr (an g p lc h) o := by
+  induction hex with
+  | skip =>
+    intro lc h _
+    exact ⟨h, by rw [an], rfl⟩
+  | atom a =>
+    intro lc h hne
+    rw [an] at hne ⊢
+    by_cases hok : okA g h a = true
+    · simp only [hok, if_true]
+      exact ⟨stepA h a, rfl, by simp [runTr, hok]⟩
+    · simp [hok] at hne
+  | ret =>
+    intro lc h hne
+    rw [an] at hne
+    by_cases hd : allDeferred h = true
+    · exact ⟨h, rfl, hd⟩
+    · simp [hd] at hne
+  | brk =>
+    intro lc h hne
+    rw [an] at hne
+    by_cases hd : lc = some h
+    · exact ⟨h, rfl, hd⟩
+    · simp [hd] at hne
+  | cont =>
+    intro lc h hne
+    rw [an] at hne
+    by_cases hd : lc = some h
+    · exact ⟨h, rfl, hd⟩
+    · simp [hd] at hne
+  | seqN _ _ ihp ihq =>
+    intro lc h hne
+    have hp := ihp lc h (seq_left_ne_err hne)
+    obtain ⟨h1, hfall, hrun⟩ := hp
+    rw [seq_of_fall hfall] at hne ⊢
+    exact Post_prepend hrun (ihq lc h1 hne)
+  | seqJ _ ho ihp =>
+    intro lc h hne
+    exact Post_res_irrel ho (ihp lc h (seq_left_ne_err hne))
+  | @iteT t e tr o _ iht =>
+    intro lc h hne
+    have hp := iht lc h (ite_ne_err hne).1
+    cases o with
+    | norm =>
+      obtain ⟨h1, hfall, hrun⟩ := hp
+      obtain ⟨heq, hres⟩ := ite_fall_left hne hfall
+      exact ⟨h, hres, by rw [hrun, heq]⟩
+    | ret => exact hp
+    | brk => exact hp
+    | cont => exact hp
+  | @iteE t e tr o _ ihe =>
+    intro lc h hne
+    have hp := ihe lc h (ite_ne_err hne).2
+    cases o with
+    | norm =>
+      obtain ⟨h2, hfall, hrun⟩ := hp
+      obtain ⟨heq, hres⟩ := ite_fall_right hne hfall
+      exact ⟨h, hres, by rw [hrun, heq]⟩
+    | ret => exact hp
+    | brk => exact hp
+    | cont => exact hp
+  | loopDone =>
+    intro lc h hne
+    exact ⟨h, (loop_ne_err hne).1, rfl⟩
+  | @loopIter b t1 t2 o1 o2 _ ho1 _ ihb ihl =>
+    intro lc h hne
+    obtain ⟨_, hbne, hbal⟩ := loop_ne_err hne
+    have hb := ihb (some h) h hbne
+    have hrun : runTr g h t1 = some h := by
+      cases ho1 with
+      | inl hn =>
+        subst hn
+        obtain ⟨h', hfall, hrun⟩ := hb
+        rw [hrun, hbal h' hfall]
+      | inr hc =>
+        subst hc
+        obtain ⟨h', hrun, hlc⟩ := hb
+        rw [hrun]
+        exact hlc.symm
+    exact Post_prepend hrun (ihl lc h hne)
+  | loopBrk _ ihb =>
+    intro lc h hne
+    obtain ⟨hres, hbne, _⟩ := loop_ne_err hne
+    obtain ⟨h', hrun, hlc⟩ := ihb (some h) h hbne
+    exact ⟨h, hres, by rw [hrun]; exact hlc.symm⟩
+  | loopRet _ ihb =>
+    intro lc h hne
+    obtain ⟨_, hbne, _⟩ := loop_ne_err hne
+    exact ihb (some h) h hbne
+  | @closure b =>
+    intro lc h hne
+    rw [an_closure] at hne ⊢
+    by_cases hv : bodyVerdict (an g b none []) = true
+    · simp only [hv, if_true]
+      exact ⟨h, rfl, rfl⟩
+    · simp [hv] at hne
+
+/-! ## Function bodies and closure bodies -/
+
+theorem fnOk_ne_err {g : Guards} {p : Prog} (hok : fnOk g p = true) : an g p none [] ≠ .err := by
+  intro hc
+  simp [fnOk, hc, bodyVerdict] at hok
+
+/-- Every closure body inside an accepted program has itself been accepted as a function body. -/
+theorem bodies_ok (g : Guards) (p : Prog) :
+    ∀ (lc : Option Held) (h : Held), an g p lc h ≠ .err → ∀ b ∈ bodies p, fnOk g b = true := by
+  induction p with
+  | skip => intro _ _ _ b hb; simp [bodies] at hb
+  | atom a => intro _ _ _ b hb; simp [bodies] at hb
+  | ret => intro _ _ _ b hb; simp [bodies] at hb
+  | brk => intro _ _ _ b hb; simp [bodies] at hb
+  | cont => intro _ _ _ b hb; simp [bodies] at hb
+  | seq p q ihp ihq =>
+    intro lc h hne b hb
+    simp only [bodies, List.mem_append] at hb
+    cases hb with
+    | inl hb => exact ihp lc h (seq_left_ne_err hne) b hb
+    | inr hb =>
+      cases hp : an g p lc h with
+      | err => exact absurd hp (seq_left_ne_err hne)
+      | jump =>
+        rw [an_seq, hp] at hne
+        by_cases hq : q = .skip
+        · subst hq
+          simp [bodies] at hb
+        · simp [hq] at hne
+      | fall h1 =>
+        rw [seq_of_fall hp] at hne
+        exact ihq lc h1 hne b hb
+  | ite t e iht ihe =>
+    intro lc h hne b hb
+    simp only [bodies, List.mem_append] at hb
+    cases hb with
+    | inl hb => exact iht lc h (ite_ne_err hne).1 b hb
+    | inr hb => exact ihe lc h (ite_ne_err hne).2 b hb
+  | loop body ih =>
+    intro lc h hne b hb
+    simp only [bodies] at hb
+    exact ih (some h) h (loop_ne_err hne).2.1 b hb
+  | closure body ih =>
+    intro lc h hne b hb
+    rw [an_closure] at hne
+    have hv : bodyVerdict (an g body none []) = true := by
+      by_cases hv : bodyVerdict (an g body none []) = true
+      · exact hv
+      · simp [hv] at hne
+    simp only [bodies, List.mem_cons] at hb
+    cases hb with
+    | inl hb => subst hb; exact hv
+    | inr hb => exact ih none [] (fnOk_ne_err hv) b hb
+
+theorem allDeferred_iff_heldAtExit (h : Held) : allDeferred h = true ↔ heldAtExit h = [] := by
+  simp [allDeferred, heldAtExit, List.filter_eq_nil_iff]
+
+/-- An accepted body: every path runs without violating the discipline, ends by falling off the end or by `return`
+(never by a stray `break`/`continue`), and ends with every held lock deferred. -/
+theorem fn_sound {g : Guards} {p : Prog} (hok : fnOk g p = true) {tr : List Atom} {o : Out} (hex : Exec p tr o) :
+    (o = .norm ∨ o = .ret) ∧ ∃ h', runTr g [] tr = some h' ∧ allDeferred h' = true := by
+  have hp := an_sound g hex none [] (fnOk_ne_err hok)
+  cases o with
+  | norm =>
+    obtain ⟨h', hfall, hrun⟩ := hp
+    refine ⟨Or.inl rfl, h', hrun, ?_⟩
+    simpa [fnOk, hfall, bodyVerdict] using hok
+  | ret =>
+    obtain ⟨h', hrun, hd⟩ := hp
+    exact ⟨Or.inr rfl, h', hrun, hd⟩
+  | brk =>
+    obtain ⟨h', _, hlc⟩ := hp
+    cases hlc
+  | cont =>
+    obtain ⟨h', _, hlc⟩ := hp
+    cases hlc
+
+/-- Soundness in terms of `okA`: for the body of an accepted function and of every closure in it, on every path,
+every event is allowed in the lock state reached before it, and after the path (deferred unlocks run) nothing is held. -/
+theorem lockset_sound_okA (g : Guards) (p : Prog) (hok : fnOk g p = true) :
+    ∀ b ∈ p :: bodies p, ∀ (tr : List Atom) (o : Out), Exec b tr o →
+      (o = .norm ∨ o = .ret) ∧
+      (∀ pre a post, tr = pre ++ a :: post → okA g (stateAfter [] pre) a = true) ∧
+      heldAtExit (stateAfter [] tr) = [] := by
+  intro b hb tr o hex
+  have hbok : fnOk g b = true := by
+    simp only [List.mem_cons] at hb
+    cases hb with
+    | inl hb => subst hb; exact hok
+    | inr hb => exact bodies_ok g p none [] (fnOk_ne_err hok) b hb
+  obtain ⟨ho, h', hrun, hd⟩ := fn_sound hbok hex
+  obtain ⟨hfin, hall⟩ := runTr_some hrun
+  refine ⟨ho, hall, ?_⟩
+  rw [← hfin]
+  exact (allDeferred_iff_heldAtExit h').1 hd
+
+/-! ## What `okA` says about accesses -/
+
+theorem okA_read {g : Guards} {h : Held} {ty f x : String} (hok : okA g h (.read ty f x) = true)
+    (hg : guardedQ g ty f = true) : ∃ e ∈ h, e.name = x := by
+  simpa [okA, hg, heldAny] using hok
+
+theorem okA_write {g : Guards} {h : Held} {ty f x : String} (hok : okA g h (.write ty f x) = true)
+    (hg : guardedQ g ty f = true) : ∃ e ∈ h, e.name = x ∧ e.mode = .w := by
+  simpa [okA, hg, heldW] using hok
+
+theorem okA_escape {g : Guards} {h : Held} {ty f x : String} (hok : okA g h (.escape ty f x) = true) :
+    guardedQ g ty f = false := by
+  simpa [okA] using hok
+
+theorem okA_unresolved {g : Guards} {h : Held} {f x : String} (hok : okA g h (.unresolved f x) = true) :
+    guardedBare g f = false := by
+  simpa [okA] using hok
+
+theorem failing_nil {g : Guards} {funcs : List (String × List (List String))} (hf : failing g funcs = [])
+    (f : String × List (List String)) (hmem : f ∈ funcs) : checkToks g f.2 = true := by
+  simp only [failing, List.map_eq_nil_iff, List.filter_eq_nil_iff] at hf
+  simpa using hf f hmem
+
+theorem checkToks_parse {g : Guards} {toks : List (List String)} {p : Prog} (hc : checkToks g toks = true)
+    (hp : parseToks toks = some p) : fnOk g p = true := by
+  simpa [checkToks, hp] using hc
 
 end Hive.KV.Lockset
